@@ -267,6 +267,19 @@ class Scenario(object):
         w = self.w
         self.orig_os = CTX.os
         CTX.os = OsShim(r, w, self.c)
+        # when did each server-side connection object last ACCEPT a datagram (first arrival of a genuine one)?
+        import mpgameserver.connection as CN
+        self.CN = CN
+        self.orig_recv = CN.ConnectionBase._recv_datagram
+        self.last_accept = {}
+        orig_recv, last_accept, clock = self.orig_recv, self.last_accept, w.clock
+
+        def _recv_datagram(conn, hdr, datagram):
+            res = orig_recv(conn, hdr, datagram)
+            if res and conn.isServer:
+                last_accept[id(conn)] = clock.now
+            return res
+        CN.ConnectionBase._recv_datagram = _recv_datagram
         self.offered = {}
         w.offer_hooks.append(lambda addr, d, origin: self.offered.setdefault(addr, []).append(d))
         self.connected = {}          # id(client obj) -> client obj, currently connected per the log
@@ -347,6 +360,9 @@ class Scenario(object):
         live = {}                    # addr -> ClientEnd currently driving that address
         sender_of = {}               # sender id -> addr
         silent = []
+        junk_for = []
+        self.silenced = {}
+        self.t_shutdown = None
         shutdown_at = r.randint(150, 900)
         w.net.set(c2s=L.Policy(loss=0.02, dup=0.1, delay=(0.002, 0.03)), s2c=L.Policy(loss=0.02, dup=0.1, delay=(0.002, 0.03)))
         recent = []
@@ -393,6 +409,15 @@ class Scenario(object):
                     self.c.inc("act_client_disconnect")
             elif x < 0.54 and live:
                 c = r.choice(list(live.values()))
+                if c.active and c.udp.conn is not None and getattr(c.udp.conn.status, "value", 0) == 2 and c.addr in w.ctxt.connections:
+                    sobj = w.ctxt.connections[c.addr]
+                    self.silenced[id(sobj)] = (w.clock.now, c.addr)          # server-side object -> when its client fell silent
+                    # stale copies: only datagrams of this client that are more than 40 of its datagrams old - a copy the
+                    # network lost could otherwise be its legitimate first arrival and refresh the liveness clock rightly
+                    last_seq = int(c.udp.conn.seq_sending)
+                    old = [d for (dr, ad, d) in recent if ad == c.addr and len(d) >= 20
+                           and ((last_seq - L.parse_header(d)[2] + 32767) % 65535 - 32767) > 40]
+                    junk_for.append((c.addr, old))
                 c.active = False                     # goes silent: the server must time it out
                 silent.append(c)
                 self.c.inc("act_go_silent")
@@ -416,12 +441,28 @@ class Scenario(object):
                 else:
                     w.net.inject("c2s", addr, A.forge_crc("c2s", r.randint(0, 7), r.randint(1, 65535), 1, 0, [(1, 6, b"x" * 12)], int(w.clock.now)), "forged")
                 self.c.inc("act_hostile_datagram")
+            # junk keeps arriving from the addresses of silent clients: garbage, stale copies of their own datagrams, forged
+            for addr, own in junk_for:
+                if r.random() < 0.6:
+                    kind = r.choice(["garbage", "stale", "forged", "flip"])
+                    if kind == "stale" and own:
+                        w.net.inject("c2s", addr, r.choice(own), "replay:stale")
+                    elif kind == "flip" and own:
+                        b = bytearray(r.choice(own))
+                        b[r.randrange(len(b))] ^= 1 << r.randrange(8)
+                        w.net.inject("c2s", addr, bytes(b), "bitflip")
+                    elif kind == "forged":
+                        w.net.inject("c2s", addr, A.forge_crc("c2s", r.choice([1, 4, 6]), r.randint(1, 65535), 1, 0, [(1, 6, b"j" * 12)], int(w.clock.now)), "forged")
+                    else:
+                        w.net.inject("c2s", addr, r.randbytes(r.randint(20, 60)), "random")
+                    self.c.inc("junk_from_silent_addresses")
             w.step()
             if not w.alive():
                 break
             if len(recent) > 3000:
                 del recent[:1500]
         alive_before_stop = w.alive()
+        self.t_shutdown = w.clock.now
         still = dict(self.connected)
         self.c.inc("connected_at_shutdown", len(still))
         w.stop()
@@ -474,6 +515,21 @@ class Scenario(object):
                 self.viol("no-disconnect-after-shutdown", "client at %s connected but never got its disconnect (shutdown included)" % (getattr(cl, "addr", None),))
             else:
                 self.c.inc("lifecycles_complete")
+        # silence is detected in time although junk keeps arriving from the silent client's address
+        timeout = w.ctxt.connection_timeout
+        for cid, (t_silent, addr) in self.silenced.items():
+            disc = [e[2] for e in log if e[0] == "disconnect" and e[3] == cid]
+            # reference: the last datagram this connection ACCEPTED (a copy the network had lost can still be a legitimate
+            # first arrival after the client fell silent); junk - rejected datagrams - must not postpone the timeout
+            t_ref = max(t_silent, self.last_accept.get(cid, t_silent))
+            deadline = t_ref + timeout + 3 * w.dt
+            if self.t_shutdown is not None and deadline >= self.t_shutdown:
+                self.c.inc("silence_deadline_after_shutdown_not_judged")
+                continue
+            self.c.inc("silence_timeouts_checked")
+            if not disc or disc[0] > deadline + 1e-6:
+                self.viol("silent-client-not-timed-out", "client at %s fell silent at t=%.3f (timeout %.2f) but its disconnect came %s although only junk arrived from its address" % (
+                    addr, t_silent - L.EPOCH, timeout, ("%.3fs later" % (disc[0] - t_silent)) if disc else "never (before shutdown)"))
         # events keep flowing after a handler exception: the loop must have produced later events / iterations
         for idx, iteration, event in self.flow_check:
             if event in ("shutdown",):
@@ -490,6 +546,7 @@ class Scenario(object):
 
     def close(self):
         self.CTX.os = self.orig_os
+        self.CN.ConnectionBase._recv_datagram = self.orig_recv
         try:
             self.w.stop()
         except Exception:
@@ -524,7 +581,7 @@ def finish(tier, seed, results):
                          "server_disconnect_in_update", "token_draws_repeating_a_live_token", "handler_raised_in_connect",
                          "handler_raised_in_message", "handler_raised_in_update", "handler_raised_in_disconnect", "connected_at_shutdown",
                          "flow_after_exception_checked", "messages_attributed_to_their_client", "act_hostile_datagram", "realnet_runs",
-                         "realnet_sends"], inconclusive)
+                         "realnet_sends", "silence_timeouts_checked", "junk_from_silent_addresses"], inconclusive)
     cov = {
         "evaluations": m["evaluations"],
         "distinct_nontrivial": m["distinct_nontrivial"],
